@@ -142,7 +142,15 @@ class CallMixin:
         for k, v in st.vars.items():
             if k not in o.vars:
                 o.vars[k] = v
-        return self.eval(node, o)
+        r = self.eval(node, o)
+        return self.freeze(r, o)
+
+    def freeze(self, r, o):
+        if isinstance(r, SArr) and r.snap is None:
+            return SArr(r.cell, r.dt, r.shape, r.fixed, r.name, snap=o.heap[r.cell])
+        if isinstance(r, tuple) and not (r and isinstance(r[0], str)):
+            return tuple(self.freeze(x, o) for x in r)
+        return r
 
     # ------------------------------------------------------------ spec functions
     def call_spec(self, sp, args, st, n):
@@ -163,7 +171,7 @@ class CallMixin:
         scal, key = [], [sp.name]
         for p, a in zip(sp.params, args):
             if isinstance(a, SArr):
-                h = st.heap[a.cell]
+                h = a.snap if a.snap is not None else st.heap[a.cell]
                 key.append(("arr", a.dt, tuple(x.get_id() for x in (h if isinstance(h, tuple) else (h,))),
                             tuple(str(s) for s in a.shape), tuple(str(s) for s in a.fixed)))
             elif isinstance(a, str) or a is None:
